@@ -263,6 +263,18 @@ def clone_list(
 ) -> rdflib.URIRef: ...
 
 
+def _list_members(graph, lnode):
+    """The members of the rdf:List starting at lnode. A list whose rdf:rest chain loops back into
+    itself (valid RDF, but not a well-formed list) ends where it would start to repeat."""
+    seen = set()
+    while lnode is not None and lnode not in seen:
+        seen.add(lnode)
+        item = graph.value(lnode, RDF_first)
+        if item is not None:
+            yield item
+        lnode = graph.value(lnode, rdflib.RDF.rest)
+
+
 def clone_list(graph, lnode, target_graph, keepid=False, recursion=0, deep_clone=False):
     # If deep_clone, copy all the contents (subjects, predicates) of a named member item
     if isinstance(lnode, rdflib.BNode):
@@ -274,7 +286,7 @@ def clone_list(graph, lnode, target_graph, keepid=False, recursion=0, deep_clone
         # A list can be a NamedIndividual too
         cloned_node = rdflib.URIRef(str(lnode))
     new_list = Collection(target_graph, cloned_node)
-    for item in iter(graph.items(lnode)):
+    for item in _list_members(graph, lnode):
         cloned_item = clone_node(graph, item, target_graph, recursion=recursion + 1, deep_clone=deep_clone)
         new_list.append(cloned_item)
     return cloned_node
